@@ -103,6 +103,54 @@ def run(tier, seed, replay=None):
                                       f"from PYTHONHASHSEED={base_hs}")
                     else:
                         chk.nontrivial.add((p, hs))
+        # ---- (1a) a language defined OUTSIDE the package, with one header expression object used for every file and a stateful
+        #          predicate inside a composite one ("a parenthesis group that holds no ';'", "a parenthesis or a bracket group"):
+        #          a text on which matching is abandoned inside an open group must not change what the next text yields
+        #          (seeded change C06-13: predicates copied shallowly, the nested Balanced shared between files)
+        from pygments.lexers import CLexer
+        from codelimit.common.Language import Language
+        from codelimit.common.Scanner import scan_file as _scan_file
+        from codelimit.common.gsm.operator.OneOrMore import OneOrMore as _OneOrMore
+        from codelimit.common.lexer_utils import lex as _lex
+        from codelimit.common.scope.scope_utils import get_blocks as _get_blocks, get_headers as _get_headers
+        from codelimit.common.token_matching.predicate.And import And as _And
+        from codelimit.common.token_matching.predicate.Or import Or as _Or
+        from codelimit.common.token_matching.predicate.Balanced import Balanced as _Balanced
+        from codelimit.common.token_matching.predicate.Name import Name as _Name
+        from codelimit.common.token_matching.predicate.Not import Not as _Not
+        from codelimit.common.token_matching.predicate.Symbol import Symbol as _Symbol
+        for hname, hexpr in (("group without ';'", [_Name(), _OneOrMore(_And(_Balanced("(", ")"), _Not(";")))]),
+                             ("parenthesis or bracket group", [_Name(), _OneOrMore(_Or(_Balanced("(", ")"), _Balanced("[", "]")))])):
+            class _Own(Language):
+                def __init__(self):
+                    super().__init__("Own", False)
+
+                def extract_headers(self, tokens, _e=hexpr):
+                    return _get_headers(tokens, _e, _Symbol("{"))
+
+                def extract_blocks(self, tokens, headers):
+                    return _get_blocks(tokens, "{", "}")
+            own = _Own()
+            good = ["void g() {\n  run();\n  stop();\n}\n\nvoid h(int a) {\n  run();\n}\n", "int k(int a)(int b) {\n  x = 1;\n}\n",
+                    "int t[3] {\n  x = 1;\n}\nint u() {\n  y = 2;\n}\n"]
+            bad = ["void broken(int a, int b\n", "f(g(", "int t[", "void c(a; b) {\n}\n", "x = f((a)"]
+
+            def own_scan(text, _own=own):
+                return LC.guarded(lambda: [(m.unit_name, m.start.line, m.end.line, m.value) for m in _scan_file(_lex(CLexer(), text, False), _own)])
+            alone = [own_scan(t) for t in good]
+            for _ in range(6 if tier == "quick" else 60):
+                seqn = [(rng.choice(bad), False) for _ in range(rng.randint(1, 3))] + [(t, True) for t in good]
+                rng.shuffle(seqn)
+                for t, is_good in seqn:
+                    r = own_scan(t)
+                    chk.evaluations += 1
+                    if is_good and r != alone[good.index(t)]:
+                        chk.violation({"language": hname, "sequence": [x for x, _ in seqn], "text": t},
+                                      f"own language ({hname}): {t.splitlines()[0]!r} gives {r} after other texts were analysed, {alone[good.index(t)]} when analysed first")
+                        break
+                else:
+                    chk.nontrivial.add(("own", hname, tuple(x for x, _ in seqn)))
+            chk.count("own language with a composite stateful predicate")
         # ---- (1b) the order of a DFA state's transition list (a Python set's iteration order) must not matter:
         #          every text is analysed again with all transition lists reversed
         from codelimit.common.gsm import matcher as _matcher
